@@ -1,11 +1,12 @@
 package main
 
 import (
-	"math"
 	"fmt"
+	"math"
 	"reflect"
 	"sort"
 	"strings"
+	"sync"
 
 	"github.com/biogo/biogo/alphabet"
 	"github.com/biogo/biogo/feat"
@@ -113,10 +114,9 @@ type c10alpha struct {
 var c10Alphas = []c10alpha{
 	{"DNA", alphabet.DNA, "acgt", false},
 	{"RNA", alphabet.RNA, "acgu", false},
-	{"cased-ACGT", nil, "ACGT", true},                // filled in by c10Custom
+	{"cased-ACGT", nil, "ACGT", true},               // filled in by c10Custom
 	{"uncased-defined-as-ACGT", nil, "acgt", false}, // a case-insensitive alphabet whose definition is written in upper case
 }
-
 
 func (a c10alpha) code(b byte) int {
 	if !a.cased && b >= 'A' && b <= 'Z' {
@@ -439,6 +439,66 @@ func c10Check(r *obs.Run, a c10alpha, s []byte, k int, exhaustive bool) {
 	if scribbled > 0 { // every present word again, after the caller overwrote some of the earlier answers
 		for wd := range refPos {
 			query(wd)
+		}
+	}
+	// several readers of the one built index at the same time (each asks for words of its own): formatting, positions and
+	// the string-keyed map are read-only questions, so every answer is the one a single reader gets
+	if !exhaustive && len(refPos) > 0 && r.Rng.Intn(4) == 0 {
+		var words []int
+		for wd := range refPos {
+			words = append(words, wd)
+		}
+		sort.Ints(words)
+		const readers = 6
+		type bad struct{ what, got, want string }
+		bads := make([]*bad, readers)
+		var wg sync.WaitGroup
+		start := make(chan struct{})
+		for g := 0; g < readers; g++ {
+			g := g
+			wg.Add(1)
+			go func() {
+				defer wg.Done()
+				defer func() {
+					if p := recover(); p != nil && bads[g] == nil {
+						bads[g] = &bad{"panic", fmt.Sprint(p), "an answer"}
+					}
+				}()
+				<-start
+				for rep := 0; rep < 40 && bads[g] == nil; rep++ {
+					wd := words[(g*7+rep*13)%len(words)]
+					text := c10Text(a, wd, k)
+					if got := ki.Format(kmerindex.Kmer(wd)); got != text {
+						bads[g] = &bad{"Format", got, text}
+					}
+					got, err := ki.KmerPositions(kmerindex.Kmer(wd))
+					gs := append([]int(nil), got...)
+					sort.Ints(gs)
+					if err != nil || !reflect.DeepEqual(gs, refPos[wd]) {
+						bads[g] = &bad{"KmerPositions(" + text + ")", fmt.Sprint(got, err), fmt.Sprint(refPos[wd])}
+					}
+					if rep%10 == g%10 {
+						sm, ok := ki.StringKmerIndex()
+						if !ok || len(sm) != len(refPos) {
+							bads[g] = &bad{"StringKmerIndex size", fmt.Sprint(len(sm)), fmt.Sprint(len(refPos))}
+						}
+						for _, w2 := range words {
+							if _, present := sm[c10Text(a, w2, k)]; !present && bads[g] == nil {
+								bads[g] = &bad{"StringKmerIndex key", "no entry for " + c10Text(a, w2, k), "an entry"}
+							}
+						}
+					}
+				}
+			}()
+		}
+		close(start)
+		wg.Wait()
+		r.Count("indexes_read_by_several_goroutines", 1)
+		for g, b := range bads {
+			if b != nil {
+				fail("concurrent-readers", fmt.Sprintf("with %d goroutines reading the built index at the same time, reader %d: %s", readers, g, b.what), b.got, b.want)
+				break
+			}
 		}
 	}
 	// sub-range iteration
